@@ -18,13 +18,15 @@ use std::task::Poll;
 pub enum SameThreadOp { Send, SendWith, Reserve, Len, Poll }
 
 #[derive(Clone, Debug)]
-pub struct Cfg { pub kind: Kind, pub n: usize, pub m: usize, pub streams: usize, pub suspended: usize, pub same_thread: Vec<SameThreadOp>, pub others: Vec<Entry>, pub per_other: u32, pub len_thread: bool, pub prefill: u32 }
+pub struct Cfg { pub kind: Kind, pub n: usize, pub m: usize, pub streams: usize, pub suspended: usize, pub same_thread: Vec<SameThreadOp>, pub others: Vec<Entry>, pub per_other: u32, pub len_thread: bool, pub prefill: u32,
+    /// the length-query thread also issues `flush(unbounded)` once a send is suspended: what was accepted meanwhile gets consumed, so the flush has to return
+    pub flush: bool }
 impl Cfg {
     pub fn json(&self) -> J {
         J::obj().with("kind", J::s(self.kind.name())).with("N", J::i(self.n as i64)).with("M", J::i(self.m as i64)).with("streams", J::i(self.streams as i64))
             .with("suspended_async_sends", J::i(self.suspended as i64)).with("same_thread_ops_while_suspended", J::s(format!("{:?}", self.same_thread)))
             .with("other_producers", J::Arr(self.others.iter().map(|e| J::s(e.name())).collect())).with("events_per_other_producer", J::i(self.per_other as i64))
-            .with("length_query_thread", J::Bool(self.len_thread)).with("prefill", J::i(self.prefill as i64))
+            .with("length_query_thread", J::Bool(self.len_thread)).with("flush_issued_while_a_send_is_suspended", J::Bool(self.len_thread && self.flush)).with("prefill", J::i(self.prefill as i64))
     }
 }
 
@@ -53,7 +55,7 @@ pub fn draw_cfg(rng: &mut Rng, only: Option<&str>) -> Cfg {
     while (prefill + per_other * nothers as u32 + (suspended + same_thread.len()) as u32) as usize > n { if prefill > 0 { prefill -= 1 } else if per_other > 1 { per_other -= 1 } else if nothers > 1 { nothers -= 1 } else { break } }
     let mut es = entries_for(kind); es.retain(|e| !matches!(e, Entry::SendAsyncSuspended | Entry::Derived));
     let others: Vec<Entry> = (0..nothers).map(|_| *rng.pick(&es)).collect();
-    Cfg { kind, n, m, streams, suspended, same_thread, others, per_other, len_thread: rng.chance(1, 3), prefill }
+    Cfg { kind, n, m, streams, suspended, same_thread, others, per_other, len_thread: rng.chance(1, 3), prefill, flush: rng.chance(1, 2) }
 }
 
 struct Shared {
@@ -69,6 +71,7 @@ struct Shared {
     gate_opened: AtomicBool,
     delivered_before_gate: AtomicU32,
     problems: Mutex<Vec<String>>,
+    flushes: AtomicU32,
 }
 
 pub fn one_run(cfg: &Cfg, rc: &RunCfg, acc: &mut Acc) -> (Option<J>, u64, bool, bool) {
@@ -78,7 +81,7 @@ pub fn one_run(cfg: &Cfg, rc: &RunCfg, acc: &mut Acc) -> (Option<J>, u64, bool, 
     let sh = Arc::new(Shared {
         others_done: AtomicU32::new(0), n_others: cfg.others.len() as u32 + cfg.len_thread as u32, all_done: AtomicU32::new(0), n_producers: (cfg.others.len() + cfg.suspended) as u32 + cfg.len_thread as u32,
         accepted_by_others: AtomicU32::new(0), accepted_total: AtomicU32::new(0), yielded: (0..if multi { cfg.streams } else { 1 }).map(|_| AtomicU32::new(0)).collect(),
-        yielded_ids: Mutex::new(Vec::new()), accepted_ids: Mutex::new(Vec::new()), suspended_reached: AtomicU32::new(0), gate_opened: AtomicBool::new(false), delivered_before_gate: AtomicU32::new(0), problems: Mutex::new(Vec::new()),
+        yielded_ids: Mutex::new(Vec::new()), accepted_ids: Mutex::new(Vec::new()), suspended_reached: AtomicU32::new(0), gate_opened: AtomicBool::new(false), delivered_before_gate: AtomicU32::new(0), problems: Mutex::new(Vec::new()), flushes: AtomicU32::new(0),
     });
     let mut next_id = 1u64;
     for _ in 0..cfg.prefill { if send_via(&*ch, Entry::Send, next_id) == SendRes::Ok { sh.accepted_by_others.fetch_add(1, SeqCst); sh.accepted_total.fetch_add(1, SeqCst); sh.accepted_ids.lock().unwrap().push(next_id) } next_id += 1 }
@@ -178,10 +181,19 @@ pub fn one_run(cfg: &Cfg, rc: &RunCfg, acc: &mut Acc) -> (Option<J>, u64, bool, 
     }
     if cfg.len_thread {
         let (ch, sh) = (ch.clone(), sh.clone());
+        let do_flush = cfg.flush;
         bodies.push(Box::new(move || {
             let sh2 = sh.clone();
             let _g = OnExit(Some(move || { sh2.others_done.fetch_add(1, SeqCst); sh2.all_done.fetch_add(1, SeqCst); }));
             for _ in 0..3 { let l = ch.pending(); if l as usize > ch.info().n.max(1) * 2 && ch.info().n > 0 { sh.problems.lock().unwrap().push(format!("pending_items_count reported {l}")) } let _ = ch.is_open(); let _ = ch.running(); sched::op_done(); }
+            if do_flush {
+                // (once a send is suspended, if that comes about) everything accepted so far is being consumed by the polling streams: the flush returns, with nothing left
+                let mut k = 0; while sh.suspended_reached.load(SeqCst) == 0 && k < 50 { k += 1; sched::point() }
+                let left = super::c07::block_on_paused_counting_attempts(ch.flush(std::time::Duration::ZERO));
+                if left != 0 { sh.problems.lock().unwrap().push(format!("flush(unbounded) returned with {left} event(s) reported as still pending")) }
+                sh.flushes.fetch_add(1, SeqCst);
+                sched::op_done();
+            }
         }));
     }
     let rep = sched::run(rc, bodies);
@@ -221,6 +233,7 @@ pub fn one_run(cfg: &Cfg, rc: &RunCfg, acc: &mut Acc) -> (Option<J>, u64, bool, 
     }
     if let Some(v) = v.as_mut() { v.set("config", cfg.json()); v.set("strategy", J::s(rc.strategy.describe())); v.set("outcome", rep.outcome_json()); }
     acc.count("events_delivered_while_a_send_was_suspended", sh.delivered_before_gate.load(SeqCst) as u64);
+    acc.count("flushes_completed_while_a_send_was_suspended_or_about_to_be", sh.flushes.load(SeqCst) as u64);
     (v, rep.sched_hash, false, suspended_reached)
 }
 
